@@ -12,7 +12,7 @@ R-POLYGUARD    fewer than three polygon vertices => no intersection; the contact
 import ast
 import re
 
-from ..core.astutil import u, call_name, calls, iter_stmts, compare_triples, const, is_neg_of, parent_map, index_elts, ncmp
+from ..core.astutil import u, call_name, calls, iter_stmts, compare_triples, const, is_neg_of, parent_map, index_elts, ncmp, resolved
 from ..core.index import AnalysisError
 
 HY = "distance3d.hydroelastic_contact."
@@ -131,26 +131,29 @@ def r_reaction(idx, rep, rule="R-REACTION"):
               "force parts `%s` and `%s` are not mutual negations" % (u(p12[0]), u(p21[0])))
     rep.check("12" in u(p12[1]) and "21" in u(p21[1]), rule, tw.key + "|torque pairing", tw.where,
               "wrench12 carries `%s`, wrench21 carries `%s`" % (u(p12[1]), u(p21[1])))
-    # torques in accumulate_wrenches
-    aloc = {}
-    for st in iter_stmts(acc.node.body):
-        if isinstance(st, ast.Assign) and isinstance(st.targets[0], ast.Name):
-            aloc[st.targets[0].id] = st.value
+    # torques handed to _transform_wrenches: the role is given by the PARAMETER (…_12 / …_21), the value is judged by its structure
+    # whether or not accumulate_wrenches names it (a named local must also carry the role of the parameter it is passed to)
     ap = acc.params()
-    for tname, body, sign in (("total_torque_21", ap[1], +1), ("total_torque_12", ap[2], -1)):
-        v = aloc.get(tname)
+    tcalls = [c for c in ast.walk(acc.node) if isinstance(c, ast.Call) and (call_name(c) or "").split(".")[-1] == "_transform_wrenches"]
+    if len(tcalls) != 1 or len(tcalls[0].args) != len(tw.params()):
+        raise AnalysisError("accumulate_wrenches: expected one positional call of _transform_wrenches")
+    for pname, arg in zip(tw.params(), tcalls[0].args):
+        if "torque" not in pname:
+            continue
+        role = "12" if "12" in pname else "21"
+        body, sign = (ap[2], -1) if role == "12" else (ap[1], +1)
+        v = resolved(acc.node, arg)
         ok = False
-        why = "%s not found" % tname
-        if v is not None:
-            cr = calls(v, "cross")
-            if cr and len(cr[0].args) == 2:
-                arm, frc = cr[0].args
-                arm_ok = isinstance(arm, ast.BinOp) and isinstance(arm.op, ast.Sub) and u(arm.right) == "%s.com" % body and "contact_coms" in u(arm.left)
-                neg = isinstance(frc, ast.UnaryOp) and isinstance(frc.op, ast.USub)
-                f_ok = ("contact_forces" in u(frc)) and (neg == (sign < 0))
-                ok = arm_ok and f_ok
-                why = "lever arm `%s` / force `%s`: need (contact_coms - %s.com) x (%scontact_forces)" % (u(arm), u(frc), body, "-" if sign < 0 else "")
-        rep.check(ok, rule, acc.key + "|%s" % tname, acc.where, why)
+        why = "argument `%s` for %s is not a sum of cross products" % (u(arg)[:60], pname)
+        cr = calls(v, "cross")
+        if cr and len(cr[0].args) == 2:
+            arm, frc = cr[0].args
+            arm_ok = isinstance(arm, ast.BinOp) and isinstance(arm.op, ast.Sub) and u(arm.right) == "%s.com" % body and "contact_coms" in u(arm.left)
+            neg = isinstance(frc, ast.UnaryOp) and isinstance(frc.op, ast.USub)
+            f_ok = ("contact_forces" in u(frc)) and (neg == (sign < 0))
+            ok = arm_ok and f_ok
+            why = "lever arm `%s` / force `%s`: need (contact_coms - %s.com) x (%scontact_forces)" % (u(arm), u(frc), body, "-" if sign < 0 else "")
+        rep.check(ok, rule, acc.key + "|total_torque_%s" % role, acc.where, why)
     # order through the call chain
     def ret_names(f):
         rets = [s for s in iter_stmts(f.node.body) if isinstance(s, ast.Return) and isinstance(s.value, ast.Tuple)]
@@ -170,7 +173,9 @@ def r_reaction(idx, rep, rule="R-REACTION"):
     if call is not None:
         an = [u(a) for a in call.args]
         pn = tw.params()
-        ok = len(an) == len(pn) and all((("12" in a) == ("12" in p)) and (("21" in a) == ("21" in p)) for a, p in zip(an[1:], pn[1:]))
+        # an argument that is an expression (not a role-named local) has been judged by its structure above
+        ok = len(an) == len(pn) and all((("12" in a) == ("12" in p)) and (("21" in a) == ("21" in p))
+                                        for a, p, node in zip(an[1:], pn[1:], call.args[1:]) if isinstance(node, ast.Name))
         rep.check(ok, rule, acc.key + "|argument roles of _transform_wrenches", acc.where,
                   "arguments %s do not line up with parameters %s" % (an, pn))
     acc_ret = ret_names(acc)
@@ -244,16 +249,15 @@ def r_forcedir(idx, rep, rule="R-FORCEDIR"):
     rets = [s for s in iter_stmts(f.node.body) if isinstance(s, ast.Return) and isinstance(s.value, ast.Tuple)]
     if not rets:
         raise AnalysisError("compute_contact_force: tuple return vanished")
-    fname = u(rets[-1].value.elts[1])
-    defs = [st for st in iter_stmts(f.node.body) if isinstance(st, ast.Assign) and u(st.targets[0]) == fname]
+    val = resolved(f.node, rets[-1].value.elts[1])
     ok = False
-    if len(defs) == 1 and isinstance(defs[0].value, ast.BinOp) and isinstance(defs[0].value.op, ast.Mult):
-        l, r = defs[0].value.left, defs[0].value.right
+    if isinstance(val, ast.BinOp) and isinstance(val.op, ast.Mult):
+        l, r = val.left, val.right
         for s, v in ((l, r), (r, l)):
             if isinstance(v, ast.Subscript) and u(v.value) == hnf and u(v.slice) == ":3" and isinstance(s, ast.Name):
                 ok = True
-    rep.check(ok, rule, f.key + "|%s" % (u(defs[0]) if defs else fname), f.where,
-              "force vector is `%s`, need scalar * %s[:3]" % (u(defs[0].value) if defs else "?", hnf))
+    rep.check(ok, rule, f.key + "|force vector = scalar * normal", f.where,
+              "force vector is `%s`, need scalar * %s[:3]" % (u(val), hnf))
 
 
 def r_polyguard(idx, rep, rule="R-POLYGUARD"):
